@@ -84,6 +84,9 @@ def summarize(resp: dict) -> tuple:
         p = None
         if pos:
             p = (pos.get("start_offset"), pos.get("end_offset"), pos.get("line_number"))
+        # parse errors are reported without a stack frame name; runtime errors carry one
+        if kind["evaluate"].get("stack_frame_name") is None:
+            return ("parse_error", e.get("message"), p)
         return ("error", e.get("message"), p)
     if "run_command" in kind:
         return ("command", kind["run_command"]["message"], None)
